@@ -31,7 +31,7 @@
     (v) shape/frame lemmas of the other operations. *)
 From DV Require Import Model.Base Model.NameCheck Model.Parser Model.Header Model.Readers Model.Uncompress
   Model.Mutate Model.Compress Model.Renamer Spec.PacketSpec Spec.RecordSpec Spec.PlainSpec Proofs.Hoare Proofs.HeaderBits Proofs.InsertLemmas Proofs.EdnsPlain Proofs.WalkSkip
-  Proofs.PlainWf Proofs.ViewAfter Proofs.InsertSpec Proofs.HeaderInv Proofs.CursorHist Proofs.DecompressFirst.
+  Proofs.PlainWf Proofs.ViewAfter Proofs.InsertSpec Proofs.HeaderInv Proofs.CursorHist Proofs.DecompressFirst Proofs.FreshHist.
 
 Theorem C08_decompression_keeps_edns_summary : forall p v q v',
   bytes_ok p -> parse p = Ok v -> uncompress p = Ok q -> parse q = Ok v' ->
@@ -182,6 +182,15 @@ Theorem C08_cursor_decompress : forall p v it qls qt lxa lxn lxr l1 r x l2,
     Forall2 same_rec (lxa ++ lxn ++ lxr) (lA' ++ lN' ++ lR').
 Proof. exact cursor_decompress_fresh. Qed.
 Print Assumptions C08_cursor_decompress.
+
+(** every history on a freshly parsed response whose first operation is one of the four that decompress (recompute, an insertion, a
+    deletion or an owner-name change through a cursor), followed by any operations of the cursor histories *)
+Theorem C08_histories_from_parse_any_first : forall p v it o ops s1 s', bytes_ok p -> parse p = Ok v -> is_response p -> it_section it <> SQuestion ->
+  (o = H3Base H2Recompute \/ (exists sec rx, o = H3Base (H2Insert sec rx)) \/ (exists off, o = H3Delete off) \/ (exists off nm, o = H3SetName off nm)) ->
+  hop3_ok_at v o -> run_hop3 o (v, it) = (s1, Ok tt) -> ok_along ops s1 -> run_hops3 ops s1 = (s', Ok tt) ->
+  dinv (fst s') /\ snd s' = it /\ is_response (pp_packet (fst s')).
+Proof. exact fresh_history3_any_first. Qed.
+Print Assumptions C08_histories_from_parse_any_first.
 
 Example C08_tolerant_cursor_run_means :
   (forall o ops s, run_hops3_tol (o :: ops) s =
